@@ -13,11 +13,12 @@ Program encoding (prefix tokens, names are naturals):
          | R <expr> | E <expr> | P       return / effect / pass
   func  := k a1..ak <block>              arguments and free variables, then the body
 Ops:
-  check <real|fixfor|noabsorb|strict> <func>      → accept | reject unbound x | reject notallpaths x
+  check <real|legacy|strict> <func>      → accept | reject unbound x | reject notallpaths x
                                            | reject unreachable | reject fallthrough
-  prepass <func>                         → ok | keyerror x
+                                           (real = the code today; legacy = before the repair of F6)
+  prepass <func>                         → ok | keyerror x          (prepass_legacy: before the repair of F21)
   exec <z:0|1> <fuel> <func> m c1..cm    → returned | felloff | unbound x | excluded | timeout   (no pre-pass)
-  run  <z:0|1> <fuel> <func> m c1..cm    → same, pre-pass first
+  run  <z:0|1> <fuel> <func> m c1..cm    → same, pre-pass first     (run_legacy: with the old pre-pass)
 -/
 import Driver.Parse
 import Fpy.Model.Skel.Check
@@ -80,8 +81,7 @@ def pMode : P Mode := do
   let t ← tok
   match t with
   | "real" => pure Mode.real
-  | "fixfor" => pure Mode.fixFor
-  | "noabsorb" => pure Mode.noAbsorb
+  | "legacy" => pure Mode.legacy
   | "strict" => pure Mode.strict
   | _ => throw s!"mode:{t}"
 
@@ -110,6 +110,14 @@ def handleCheck (op : String) : Option (P String) :=
       match prepass p with
       | .ok _ => pure "ok"
       | .error x => pure s!"keyerror {x}"
+  | "prepass_legacy" => some do
+      let p ← pFunc
+      match prepassLegacy p with
+      | .ok _ => pure "ok"
+      | .error x => pure s!"keyerror {x}"
+  | "run_legacy" => some do
+      let z ← pBool; let fuel ← pNat; let p ← pFunc; let ch ← pNames
+      pure (showFinal (runLegacy z fuel p ch))
   | "exec" => some do
       let z ← pBool; let fuel ← pNat; let p ← pFunc; let ch ← pNames
       pure (showFinal (call z fuel p ch))
